@@ -287,6 +287,201 @@ theorem decode_der_canonical_runG (f : Nat) (d : Bytes) (ts : List Tree) (g' : G
     (h : runG (decodeAll .der f) { data := d, limit := none } = .ok (ts, g')) : d = treesBytes ts :=
   parseAll_canonical f d ts (accepts_runG .der f d ts g' h).1
 
+/-! ### re-encoding is well-formed: the canonical octets of a tree parse back to the tree -/
+
+/-- identifiers the library can represent that are not end-of-contents -/
+def identOK (id : Ident) : Bool := decide (id.cls ≤ 3) && decide (id.num ≤ 0x1fffff) && !isEocIdent id
+
+mutual
+/-- trees a DER parse can return: representable identifiers, form flag matching the node, definite
+    lengths that fit four length octets -/
+def wfTree : Tree → Bool
+  | .prim id c => identOK id && !id.constructed && decide (c.length < 2 ^ 32)
+  | .cons id indef kids =>
+    identOK id && id.constructed && !indef && wfTrees kids && decide ((treesBytes kids).length < 2 ^ 32)
+def wfTrees : List Tree → Bool
+  | [] => true
+  | t :: ts => wfTree t && wfTrees ts
+end
+
+mutual
+/-- fuel the reference parser needs for a tree -/
+def fuelTree : Tree → Nat
+  | .prim _ _ => 1
+  | .cons _ _ kids => 1 + fuelTrees kids
+def fuelTrees : List Tree → Nat
+  | [] => 1
+  | t :: ts => 1 + max (fuelTree t) (fuelTrees ts)
+end
+
+theorem take_window (c rest : Bytes) : (c ++ rest).take c.length = c := by simp
+theorem drop_window (c rest : Bytes) : (c ++ rest).drop c.length = rest := by simp
+
+/-- reading back a canonical header -/
+theorem header_readback (id : Ident) (hid : identOK id = true) (n : Nat) (hn : n < 2 ^ 32) (body : Bytes) :
+    readIdent (hdrOctets id.cls id.constructed id.num n ++ body) =
+        some (id, (identOctets id.cls id.constructed id.num).length) ∧
+    readLen false ((hdrOctets id.cls id.constructed id.num n ++ body).drop
+        (identOctets id.cls id.constructed id.num).length) = some (some n, (lenOctets n).length) ∧
+    (hdrOctets id.cls id.constructed id.num n ++ body).drop
+        ((identOctets id.cls id.constructed id.num).length + (lenOctets n).length) = body := by
+  simp only [identOK, Bool.and_eq_true, decide_eq_true_eq] at hid
+  obtain ⟨⟨hc, hnum⟩, _⟩ := hid
+  have e : hdrOctets id.cls id.constructed id.num n ++ body =
+      identOctets id.cls id.constructed id.num ++ (lenOctets n ++ body) := by
+    simp [hdrOctets, List.append_assoc]
+  rw [e]
+  refine ⟨?_, ?_, ?_⟩
+  · rw [readIdent_identOctets id.cls id.num id.constructed hc hnum]
+  · rw [drop_window]; exact readLen_lenOctets false n hn body
+  · rw [← List.drop_drop, drop_window, drop_window]
+
+/-- **re-encoding is accepted.**  The canonical octets of well-formed trees are accepted by the DER
+    grammar, with exactly those trees (given the fuel the trees need). -/
+theorem der_reparse : ∀ f : Nat,
+    (∀ t rest, fuelTree t ≤ f → wfTree t = true → parseValue .der f (treeBytes t ++ rest) = some (t, rest)) ∧
+    (∀ ts, fuelTrees ts ≤ f → wfTrees ts = true → parseAll .der f (treesBytes ts) = some ts) := by
+  intro f
+  induction f with
+  | zero =>
+    constructor
+    · intro t rest hf; cases t <;> simp [fuelTree] at hf
+    · intro ts hf; cases ts <;> simp [fuelTrees] at hf
+  | succ f ih =>
+    obtain ⟨ihV, ihA⟩ := ih
+    have hber : M.der.isBer = false := rfl
+    constructor
+    · intro t rest hf hw
+      cases t with
+      | prim id c =>
+        simp only [wfTree, Bool.and_eq_true, decide_eq_true_eq, Bool.not_eq_true'] at hw
+        obtain ⟨⟨hid, hcn⟩, hlen⟩ := hw
+        obtain ⟨h1, h2, h3⟩ := header_readback id hid c.length hlen (c ++ rest)
+        have heoc : isEocIdent id = false := by
+          simp only [identOK, Bool.and_eq_true, Bool.not_eq_true'] at hid; exact hid.2
+        rw [treeBytes_prim, List.append_assoc]
+        simp only [parseValue, h1, heoc, Bool.false_eq_true, if_false, hber, h2, h3, hcn, Bool.not_false, if_true,
+          take_window, drop_window]
+        have : ¬ (c ++ rest).length < c.length := by simp
+        simp [this]
+      | cons id indef kids =>
+        simp only [wfTree, Bool.and_eq_true, decide_eq_true_eq, Bool.not_eq_true'] at hw
+        obtain ⟨⟨⟨⟨hid, hcn⟩, hindef⟩, hkids⟩, hlen⟩ := hw
+        obtain ⟨h1, h2, h3⟩ := header_readback id hid (treesBytes kids).length hlen (treesBytes kids ++ rest)
+        have heoc : isEocIdent id = false := by
+          simp only [identOK, Bool.and_eq_true, Bool.not_eq_true'] at hid; exact hid.2
+        have hfk : fuelTrees kids ≤ f := by simp only [fuelTree] at hf; omega
+        have hp := ihA kids hfk hkids
+        rw [treeBytes_cons, List.append_assoc]
+        have hcer : (M.der == M.cer) = false := rfl
+        have : ¬ (treesBytes kids ++ rest).length < (treesBytes kids).length := by simp
+        simp only [parseValue, h1, heoc, Bool.false_eq_true, if_false, hber, h2, h3, hcn, Bool.not_true,
+          take_window, drop_window, hcer, hp, this, hindef]
+    · intro ts hf hw
+      cases ts with
+      | nil => simp [parseAll, treesBytes_nil]
+      | cons t ts =>
+        simp only [wfTrees, Bool.and_eq_true] at hw
+        simp only [fuelTrees] at hf
+        have hne : (treesBytes (t :: ts)).isEmpty = false := by
+          rw [treesBytes_cons]
+          have : 1 ≤ (treeBytes t).length := by
+            have hi : ∀ c b n, 1 ≤ (identOctets c b n).length := by
+              intro c b n; unfold identOctets; split <;> simp
+            cases t with
+            | prim id c => rw [treeBytes_prim]; simp [hdrOctets]; have := hi id.cls id.constructed id.num; omega
+            | cons id b kids => rw [treeBytes_cons]; simp [hdrOctets]; have := hi id.cls id.constructed id.num; omega
+          cases hb : treeBytes t with
+          | nil => rw [hb] at this; simp at this
+          | cons x xs => rfl
+        simp only [parseAll, hne, Bool.false_eq_true, if_false]
+        rw [treesBytes_cons, ihV t _ (by omega) hw.1]
+        simp only
+        rw [ihA ts (by omega) hw.2]
+        rfl
+
+/-- every tree a DER parse returns is well-formed in the above sense, so the round trip
+    octets → trees → octets → trees closes -/
+theorem der_parse_wf : ∀ f : Nat,
+    (∀ bs t rest, parseValue .der f bs = some (t, rest) → wfTree t = true) ∧
+    (∀ bs ts, parseAll .der f bs = some ts → wfTrees ts = true) := by
+  intro f
+  induction f with
+  | zero => exact ⟨fun bs t rest h => by simp [parseValue] at h, fun bs ts h => by simp [parseAll] at h⟩
+  | succ f ih =>
+    obtain ⟨ihV, ihA⟩ := ih
+    constructor
+    · intro bs t rest h
+      simp only [parseValue] at h
+      cases hr : readIdent bs with
+      | none => simp [hr] at h
+      | some r =>
+        obtain ⟨id, k⟩ := r
+        obtain ⟨hc, hnum, _⟩ := C12.readIdent_bounds bs id k hr
+        simp only [hr] at h
+        split at h
+        · simp at h
+        · rename_i heoc
+          have hid : identOK id = true := by simp [identOK, hc, hnum, heoc]
+          cases hl : readLen M.der.isBer (bs.drop k) with
+          | none => simp [hl] at h
+          | some r2 =>
+            obtain ⟨len?, kl⟩ := r2
+            simp only [hl] at h
+            cases len? with
+            | none =>
+              simp only at h
+              split at h
+              · simp at h
+              · rename_i hx; simp at hx
+            | some n =>
+              have hn32 := readLen_lt _ _ _ _ hl
+              simp only at h
+              split at h
+              · simp at h
+              · rename_i hn
+                have hlen : (List.take n (List.drop (k + kl) bs)).length = n := by
+                  rw [List.length_take]; omega
+                split at h
+                · rename_i hcn
+                  simp only [Option.some.injEq, Prod.mk.injEq] at h
+                  rw [← h.1]
+                  simp only [wfTree, hid, hlen, hn32, decide_true, Bool.and_true, Bool.true_and]
+                  exact hcn
+                · rename_i hcn
+                  split at h
+                  · simp at h
+                  · cases hp : parseAll .der f (List.take n (List.drop (k + kl) bs)) with
+                    | none => simp [hp] at h
+                    | some kids =>
+                      simp only [hp, Option.some.injEq, Prod.mk.injEq] at h
+                      rw [← h.1]
+                      have hk := parseAll_canonical f _ _ hp
+                      have hkl : (treesBytes kids).length = n := by rw [← hk, hlen]
+                      have hcn' : id.constructed = true := by simpa using hcn
+                      simp only [wfTree, hid, hcn', ihA _ _ hp, hkl, hn32, decide_true, Bool.and_true, Bool.not_false]
+    · intro bs ts h
+      simp only [parseAll] at h
+      split at h
+      · simp at h; subst h; rfl
+      · cases hv : parseValue .der f bs with
+        | none => simp [hv] at h
+        | some r =>
+          obtain ⟨t, rest⟩ := r
+          simp only [hv] at h
+          cases hq : parseAll .der f rest with
+          | none => simp [hq] at h
+          | some ts' =>
+            simp only [hq, Option.map, Option.some.injEq] at h
+            subst h
+            simp only [wfTrees, ihV _ _ _ hv, ihA _ _ hq, Bool.and_self]
+
+/-- **decode ∘ encode ∘ decode = decode** at the level of trees: what DER decoding accepted re-encodes
+    (`treesBytes`) to the same octets, and those are accepted again with the same trees -/
+theorem der_reencode_accepted (f : Nat) (bs : Bytes) (ts : List Tree) (h : parseAll .der f bs = some ts) :
+    treesBytes ts = bs ∧ ∀ f', fuelTrees ts ≤ f' → parseAll .der f' (treesBytes ts) = some ts :=
+  ⟨(parseAll_canonical f bs ts h).symm, fun f' hf => (der_reparse f').2 ts hf ((der_parse_wf f).2 bs ts h)⟩
+
 /-! ## 4. typed framing in DER: the inverse of `C04.frame_definite` -/
 
 theorem St_view_len (d : Bytes) (l : Nat) : (St d (some l)).view.length = min l d.length := by
@@ -405,6 +600,71 @@ theorem header_take (bs : Bytes) (id : Ident) (k n kl : Nat) (h1 : readIdent bs 
   unfold hdrOctets
   rw [← e1, ← e2, List.take_add]
 
+/-- what a successful value part (`bodyF`) means in DER mode -/
+theorem bodyF_some_der {α : Type} (c : Cons) (hm : c.mode = .der) (op : Tag → Content → Prog (α × Content))
+    (g2 : G0) (id : Ident) (heoc : isEocIdent id = false) (len? : Option Nat) (res : α) (c' : Cons) (g' : G0)
+    (h : bodyF c op g2 id len? = .ok ((some res, c'), g')) :
+    ∃ (len : Nat) (k' : Content) (g3 g4 : G0), len? = some len ∧ (∀ l, g2.limit = some l → len ≤ l) ∧ c' = c ∧
+      runG0 (op (C12.tagOf id.cls id.num) (if id.constructed = true then .cons ⟨.definite, .der⟩ else .prim .der))
+        (St g2.data (some len)) = .ok ((res, k'), g3) ∧
+      runG0 k'.exhausted g3 = .ok ((), g4) ∧ g' = { g4 with limit := g2.limit.map (· - len) } := by
+  unfold bodyF at h
+  simp only [heoc, Bool.false_eq_true, if_false, hm] at h
+  cases len? with
+  | none =>
+    exfalso
+    simp only at h
+    split at h
+    · cases h
+    · rename_i hx; simp at hx
+  | some len =>
+    simp only at h
+    have hcer : (id.constructed && Mode.der == Mode.cer) = false := by cases id.constructed <;> rfl
+    have fin : ∀ (lim' : Option Nat),
+        (match runG0 (op (C12.tagOf id.cls id.num)
+            (if id.constructed = true then Content.cons ⟨.definite, .der⟩ else Content.prim .der))
+            (St g2.data (some len)) with
+          | .error e => (.error e : Res ((Option α × Cons) × G0))
+          | .ok ((res, content'), g3) =>
+            match runG0 content'.exhausted g3 with
+            | .error e => .error e
+            | .ok (_, g4) => .ok ((some res, c), { g4 with limit := lim' })) =
+          .ok ((some res, c'), g') →
+        ∃ (k' : Content) (g3 g4 : G0), c' = c ∧
+          runG0 (op (C12.tagOf id.cls id.num) (if id.constructed = true then .cons ⟨.definite, .der⟩ else .prim .der))
+            (St g2.data (some len)) = .ok ((res, k'), g3) ∧
+          runG0 k'.exhausted g3 = .ok ((), g4) ∧ g' = { g4 with limit := lim' } := by
+      intro lim' h
+      cases hrun : runG0 (op (C12.tagOf id.cls id.num)
+          (if id.constructed = true then Content.cons ⟨.definite, .der⟩ else Content.prim .der))
+          (St g2.data (some len)) with
+      | error e => rw [hrun] at h; cases h
+      | ok r3 =>
+        obtain ⟨⟨res', k'⟩, g3⟩ := r3
+        rw [hrun] at h
+        simp only at h
+        cases hex : runG0 k'.exhausted g3 with
+        | error e => rw [hex] at h; cases h
+        | ok r4 =>
+          obtain ⟨u, g4⟩ := r4
+          rw [hex] at h
+          simp only [Except.ok.injEq, Prod.mk.injEq, Option.some.injEq] at h
+          obtain ⟨⟨hres, hc'⟩, hg'⟩ := h
+          subst hres
+          exact ⟨k', g3, g4, hc'.symm, rfl, hex, hg'.symm⟩
+    cases hlim : g2.limit with
+    | none =>
+      simp only [hlim, Bool.false_eq_true, if_false, hcer, Option.map] at h
+      obtain ⟨k', g3, g4, h1, h2, h3, h4⟩ := fin none h
+      exact ⟨len, k', g3, g4, rfl, (by intro l hl; cases hl), h1, h2, h3, h4⟩
+    | some l =>
+      simp only [hlim] at h
+      by_cases hgt : len > l
+      · simp only [hgt, decide_true, if_true] at h; cases h
+      · simp only [hgt, decide_false, Bool.false_eq_true, if_false, hcer, Option.map] at h
+        obtain ⟨k', g3, g4, h1, h2, h3, h4⟩ := fin (some (l - len)) h
+        exact ⟨len, k', g3, g4, rfl, (by intro l' hl; cases hl; omega), h1, h2, h3, h4⟩
+
 /-- **4, general form.**  If a tag-selective read in DER mode returns a value, then the source began
     with the CANONICAL header of that tag (either form `b`) announcing some length `len`, all of it
     inside the limit, and the closure was run on the `len`-octet window behind the header. -/
@@ -451,96 +711,618 @@ theorem frame_inv {α : Type} (c : Cons) (hm : c.mode = .der) (cls num : Nat) (h
           by_cases h0 : id.cls = 0
           · right; intro h1; exact ht.hne ⟨hcls ▸ h0, hnum ▸ h1⟩
           · left; exact h0
-        unfold bodyF at h
-        simp only [heoc, Bool.false_eq_true, if_false] at h
-        cases len? with
-        | none =>
-          simp only [hm] at h
-          split at h
-          · cases h
-          · rename_i hx; simp at hx
-        | some len =>
-          obtain ⟨htake, hsum⟩ := header_take _ id k len kl hr hl
-          have hlen32 := readLen_lt _ _ _ _ hl
-          simp only [hm] at h
-          rw [G0.adv_adv] at h
-          have hdata : ((St d lim).adv (k + kl)).data = d.drop (k + kl) := rfl
-          have hlimit : ((St d lim).adv (k + kl)).limit = lim.map (· - (k + kl)) := rfl
-          rw [hdata, hlimit] at h
-          have hover : ∀ l, lim = some l → ¬ len > l - (k + kl) := by
-            intro l hl' hgt
-            subst hl'
-            simp only [Option.map, hgt, decide_true, if_true] at h
-            cases h
-          have hnover : (if (match lim.map (· - (k + kl)) with | some l => decide (len > l) | none => false) = true
-              then (Except.error Err.content : Res ((Option α × Cons) × G0)) else Except.error Err.content) =
-              Except.error Err.content := by split <;> rfl
-          replace h : (if (id.constructed && Mode.der == Mode.cer) = true then Except.error Err.content
-            else
-              match
-                runG0
-                  (op (C12.tagOf id.cls id.num)
-                    (if id.constructed = true then Content.cons { state := CState.definite, mode := Mode.der }
-                    else Content.prim Mode.der))
-                  (St (List.drop (k + kl) d) (some len)) with
-              | Except.error e => Except.error e
-              | Except.ok ((res, content'), g3) =>
-                match runG0 content'.exhausted g3 with
-                | Except.error e => Except.error e
-                | Except.ok (_, g4) =>
-                  Except.ok
-                    ((some res, c),
-                      ({ g4 with limit := Option.map (fun x => x - len) (Option.map (fun x => x - (k + kl)) lim) } : G0))) =
-              Except.ok ((some res, c'), g') := by
-            cases lim with
-            | none => simpa only [Option.map, Bool.false_eq_true, if_false] using h
-            | some l =>
-              have := hover l rfl
-              simpa only [Option.map, this, decide_false, Bool.false_eq_true, if_false] using h
-          have hcer : (id.constructed && Mode.der == Mode.cer) = false := by cases id.constructed <;> rfl
-          simp only [hcer, Bool.false_eq_true, if_false] at h
-          -- relate data and view
-          have hdtake : d.take (k + kl) = hdrOctets cls id.constructed num len := by
-            rw [← hcls, ← hnum, ← htake]
-            cases hlim : lim with
-            | none => rfl
-            | some l =>
-              have : k + kl ≤ l := by
-                have := view_le_limit (St d (some l)) l rfl
-                rw [hlim] at hsum; omega
-              simp only [G0.view]
-              rw [take_take_le _ _ _ this]
-          have hdlen : k + kl ≤ d.length := Nat.le_trans hsum (G0.view_length_le _)
-          have hhl : (hdrOctets cls id.constructed num len).length = k + kl := by
-            rw [← hdtake, List.length_take]; omega
-          cases hrun : runG0 (op (C12.tagOf id.cls id.num)
-              (if id.constructed = true then Content.cons ⟨.definite, .der⟩ else Content.prim .der))
-              (St (d.drop (k + kl)) (some len)) with
-          | error e => rw [hrun] at h; cases h
-          | ok r3 =>
-            obtain ⟨⟨res', k'⟩, g3⟩ := r3
-            rw [hrun] at h
-            simp only at h
-            cases hex : runG0 k'.exhausted g3 with
-            | error e => rw [hex] at h; cases h
-            | ok r4 =>
-              obtain ⟨u, g4⟩ := r4
-              rw [hex] at h
-              simp only [Except.ok.injEq, Prod.mk.injEq, Option.some.injEq] at h
-              obtain ⟨⟨hres, hc'⟩, hg'⟩ := h
-              subst hres
-              rw [hcls, hnum] at hrun
-              refine ⟨id.constructed, len, d.drop (k + kl), k', g3, g4, ?_, hc'.symm, hlen32, ?_, hrun, hex, ?_⟩
-              · rw [← hdtake, List.take_append_drop]
-              · intro l hl'
-                subst hl'
-                have : k + kl ≤ l := by
-                  have := view_le_limit (St d (some l)) l rfl
-                  omega
-                have := hover l rfl
-                omega
-              · rw [← hg', hhl]
-                cases lim <;> simp [Nat.sub_sub]
+        rw [G0.adv_adv] at h
+        obtain ⟨len, k', g3, g4, hlen?, hfit, hc', hrun, hex, hg'⟩ := bodyF_some_der c hm op _ id heoc len? res c' g' h
+        subst hlen?
+        obtain ⟨htake, hsum⟩ := header_take _ id k len kl hr hl
+        have hlen32 := readLen_lt _ _ _ _ hl
+        have hdata : ((St d lim).adv (k + kl)).data = d.drop (k + kl) := rfl
+        have hlimit : ((St d lim).adv (k + kl)).limit = lim.map (· - (k + kl)) := rfl
+        rw [hdata] at hrun
+        rw [hlimit] at hfit hg'
+        have hdtake : d.take (k + kl) = hdrOctets cls id.constructed num len := by
+          rw [← hcls, ← hnum, ← htake]
+          cases hlim : lim with
+          | none => rfl
+          | some l =>
+            have : k + kl ≤ l := by
+              have := view_le_limit (St d (some l)) l rfl
+              rw [hlim] at hsum; omega
+            simp only [G0.view]
+            rw [take_take_le _ _ _ this]
+        have hdlen : k + kl ≤ d.length := Nat.le_trans hsum (G0.view_length_le _)
+        have hhl : (hdrOctets cls id.constructed num len).length = k + kl := by
+          rw [← hdtake, List.length_take]; omega
+        rw [hcls, hnum] at hrun
+        refine ⟨id.constructed, len, d.drop (k + kl), k', g3, g4, ?_, hc', hlen32, ?_, hrun, hex, ?_⟩
+        · rw [← hdtake, List.take_append_drop]
+        · intro l hl'
+          subst hl'
+          have h1 : k + kl ≤ l := by
+            have := view_le_limit (St d (some l)) l rfl
+            omega
+          have := hfit (l - (k + kl)) rfl
+          omega
+        · rw [hg', hhl]
+          cases lim <;> simp [Nat.sub_sub]
     · simp at h
+
+/-! ### what a program can return -/
+
+/-- every value the program can return satisfies `Q` -/
+inductive Rets {α : Type} (Q : α → Prop) : Prog α → Prop
+  | ret (a : α) (h : Q a) : Rets Q (.ret a)
+  | fail (e : Err) : Rets Q (.fail e)
+  | op (o : Op) (k : Resp → Prog α) (hk : ∀ r, Rets Q (k r)) : Rets Q (.op o k)
+
+theorem Rets.pure' {α : Type} {Q : α → Prop} (a : α) (h : Q a) : Rets Q (pure a : Prog α) := Rets.ret a h
+theorem Rets.contentErr' {α : Type} {Q : α → Prop} : Rets Q (Prog.contentErr : Prog α) := Rets.fail _
+
+theorem Rets.bind {α β : Type} {Q : α → Prop} (p : Prog β) {f : β → Prog α} (hf : ∀ b, Rets Q (f b)) :
+    Rets Q (p >>= f) := by
+  induction p with
+  | ret b => exact hf b
+  | fail e => exact Rets.fail e
+  | op o k ih => exact Rets.op o _ ih
+
+theorem Rets.run {α : Type} {Q : α → Prop} {p : Prog α} (hp : Rets Q p) :
+    ∀ (g : G0) (a : α) (g' : G0), runG0 p g = .ok (a, g') → Q a := by
+  induction hp with
+  | ret a h => intro g a' g' hr; simp [runG0] at hr; rw [← hr.1]; exact h
+  | fail e => intro g a g' hr; simp [runG0] at hr
+  | op o k _ ih =>
+    intro g a g' hr
+    simp only [runG0] at hr
+    cases hs : stepG0 g o with
+    | error e => simp [hs] at hr
+    | ok rg =>
+      obtain ⟨r, g1⟩ := rg
+      simp only [hs] at hr
+      exact ih r g1 a g' hr
+
+/-! ### primitive values: the window is the content, and it is all there -/
+
+/-- what the framework does with the closure of a primitive value whose content is `cnt` (followed by
+    `tail`): run it on the window, then run the exhaustion check of the content it hands back -/
+def contentRun {α : Type} (op : Content → Prog (α × Content)) (m : Mode) (cnt tail : Bytes) : Res (α × G0) :=
+  match runG0 (op (.prim m)) (St (cnt ++ tail) (some cnt.length)) with
+  | .error e => .error e
+  | .ok ((a, k), g) =>
+    match runG0 k.exhausted g with
+    | .error e => .error e
+    | .ok (_, g') => .ok (a, g')
+
+/-- closures for primitive values: reject the constructed form (in DER), work on the window only (no limit
+    changes, no capture), hand a primitive content back.  All leaf decoders of the crate are such. -/
+structure PrimOnly {α : Type} (op : Content → Prog (α × Content)) : Prop where
+  rejectsCons : ∀ (st : CState) (g : G0) (r : (α × Content) × G0), runG0 (op (.cons ⟨st, .der⟩)) g ≠ .ok r
+  window : W (op (.prim .der))
+  returnsPrim : ∀ (g : G0) (a : α) (k : Content) (g' : G0), runG0 (op (.prim .der)) g = .ok ((a, k), g') →
+    ∃ m, k = .prim m
+
+/-- a window closure that passes the exhaustion check has consumed exactly the announced length,
+    which therefore was available -/
+theorem primOnly_window {α : Type} (op : Content → Prog (α × Content)) (hop : PrimOnly op) (body : Bytes) (len : Nat)
+    (a : α) (k : Content) (g3 g4 : G0)
+    (h1 : runG0 (op (.prim .der)) (St body (some len)) = .ok ((a, k), g3))
+    (h2 : runG0 k.exhausted g3 = .ok ((), g4)) :
+    len ≤ body.length ∧ g3 = St (body.drop len) (some 0) ∧ g4 = St (body.drop len) (some 0) := by
+  obtain ⟨j, hj1, hj2, hg3⟩ := run_window0 _ hop.window body len _ g3 h1
+  obtain ⟨m, hk⟩ := hop.returnsPrim _ _ _ _ h1
+  subst hk; subst hg3
+  simp only [Content.exhausted, run_limitedExhausted] at h2
+  split at h2
+  · rename_i h0
+    have : j = len := by omega
+    subst this
+    simp only [Except.ok.injEq, Prod.mk.injEq, true_and] at h2
+    refine ⟨hj2, ?_, ?_⟩
+    · rw [h0]
+    · rw [← h2, h0]
+  · cases h2
+
+/-- **4 (primitive values, `take_opt_value_if` returning a value).** -/
+theorem der_value_framing_opt {α : Type} (c : Cons) (hm : c.mode = .der) (cls num : Nat) (ht : TagOK cls num)
+    (op : Content → Prog (α × Content)) (hop : PrimOnly op) (d : Bytes) (lim : Option Nat)
+    (v : α) (c' : Cons) (g' : G0)
+    (h : runG0 (takeOptValueIf c (C12.tagOf cls num) op) (St d lim) = .ok ((some v, c'), g')) :
+    ∃ cnt tail, d = hdrOctets cls false num cnt.length ++ cnt ++ tail ∧ cnt.length < 2 ^ 32 ∧ c' = c ∧
+      g' = St tail (lim.map (· - ((hdrOctets cls false num cnt.length).length + cnt.length))) ∧
+      (∀ l, lim = some l → (hdrOctets cls false num cnt.length).length + cnt.length ≤ l) ∧
+      contentRun op .der cnt tail = .ok (v, St tail (some 0)) := by
+  unfold takeOptValueIf at h
+  obtain ⟨b, len, body, k', g3, g4, hd, hc', hlen, hcov, hrun, hex, hg'⟩ :=
+    frame_inv c hm cls num ht (fun _ => op) d lim v c' g' h
+  cases b with
+  | true => exact absurd hrun (hop.rejectsCons _ _ _)
+  | false =>
+    simp only [Bool.false_eq_true, if_false] at hrun
+    obtain ⟨hle, hg3, hg4⟩ := primOnly_window op hop body len v k' g3 g4 hrun hex
+    have hcl : (body.take len).length = len := by rw [List.length_take]; omega
+    refine ⟨body.take len, body.drop len, ?_, by rw [hcl]; exact hlen, hc', ?_, ?_, ?_⟩
+    · rw [hcl, List.append_assoc, List.take_append_drop]; exact hd
+    · rw [hcl, hg', hg4]
+    · rw [hcl]; exact hcov
+    · unfold contentRun
+      rw [hcl, List.take_append_drop, hrun]
+      simp only
+      rw [hex, hg4]
+
+/-- **4 (primitive values, `take_value_if`).**  If the mandatory tag-selective read of a primitive
+    value succeeds in DER mode on `St d lim`, then `d` starts with the canonical header of the tag
+    for the content length, then the content `cnt`, then `tail`; the `Constructed` is unchanged, the
+    source is left at `tail` with the limit reduced by exactly the octets of the value, and the value
+    returned is what the closure made of exactly `cnt`. -/
+theorem der_value_framing {α : Type} (c : Cons) (hm : c.mode = .der) (cls num : Nat) (ht : TagOK cls num)
+    (op : Content → Prog (α × Content)) (hop : PrimOnly op) (d : Bytes) (lim : Option Nat)
+    (v : α) (c' : Cons) (g' : G0)
+    (h : runG0 (takeValueIf c (C12.tagOf cls num) op) (St d lim) = .ok ((v, c'), g')) :
+    ∃ cnt tail, d = hdrOctets cls false num cnt.length ++ cnt ++ tail ∧ cnt.length < 2 ^ 32 ∧ c' = c ∧
+      g' = St tail (lim.map (· - ((hdrOctets cls false num cnt.length).length + cnt.length))) ∧
+      (∀ l, lim = some l → (hdrOctets cls false num cnt.length).length + cnt.length ≤ l) ∧
+      contentRun op .der cnt tail = .ok (v, St tail (some 0)) := by
+  unfold takeValueIf at h
+  rw [mandatory_run] at h
+  cases hr : runG0 (processNextValue c (some (C12.tagOf cls num)) fun _ => op) (St d lim) with
+  | error e => rw [hr] at h; cases h
+  | ok r =>
+    obtain ⟨⟨a?, c1⟩, g1⟩ := r
+    rw [hr] at h
+    cases a? with
+    | none => cases h
+    | some a =>
+      simp only [Except.ok.injEq, Prod.mk.injEq] at h
+      obtain ⟨⟨ha, hc1⟩, hg1⟩ := h
+      subst ha; subst hc1; subst hg1
+      exact der_value_framing_opt c hm cls num ht op hop d lim a c1 g1 hr
+
+/-- closures built by `take_primitive_if`: `|prim| p(prim)` for a window program `p` -/
+theorem primOnly_asPrimitive {α : Type} (p : Prog α) (hp : W p) :
+    PrimOnly (asPrimitive (fun md => do let a ← p; pure (a, md))) := by
+  refine ⟨fun k g r h => (by cases h), ?_, ?_⟩
+  · simp only [asPrimitive]
+    uses
+  · intro g a k g' h
+    simp only [asPrimitive, runG0_bind] at h
+    cases hr : runG0 p g with
+    | error e => rw [hr] at h; cases h
+    | ok r =>
+      obtain ⟨a', g1⟩ := r
+      rw [hr] at h
+      simp only [runG0_pure, Except.ok.injEq, Prod.mk.injEq] at h
+      exact ⟨.der, h.1.2.symm⟩
+
+theorem contentRun_asPrimitive {α : Type} (p : Prog α) (m : Mode) (cnt tail : Bytes) :
+    contentRun (asPrimitive (fun md => do let a ← p; pure (a, md))) m cnt tail = C14.primRun p cnt tail := by
+  rw [primRun_unfold]
+  unfold contentRun
+  simp only [asPrimitive, runG0_bind]
+  cases runG0 p (St (cnt ++ tail) (some cnt.length)) with
+  | error e => rfl
+  | ok r =>
+    obtain ⟨a, g⟩ := r
+    simp only [runG0_pure, Content.exhausted]
+    cases runG0 limitedExhausted g with
+    | error e => rfl
+    | ok r2 => rfl
+
+/-- **4 (`take_primitive_if`).**  The statement asked for: the source began with the canonical header,
+    the closure `p` was run on the content window and left it exhausted. -/
+theorem der_prim_framing {α : Type} (c : Cons) (hm : c.mode = .der) (cls num : Nat) (ht : TagOK cls num)
+    (p : Prog α) (hp : W p) (d : Bytes) (lim : Option Nat) (v : α) (c' : Cons) (g' : G0)
+    (h : runG0 (takePrimitiveIf c (C12.tagOf cls num) (fun md => do let a ← p; pure (a, md))) (St d lim) =
+      .ok ((v, c'), g')) :
+    ∃ cnt tail, d = hdrOctets cls false num cnt.length ++ cnt ++ tail ∧ cnt.length < 2 ^ 32 ∧ c' = c ∧
+      g' = St tail (lim.map (· - ((hdrOctets cls false num cnt.length).length + cnt.length))) ∧
+      (∀ l, lim = some l → (hdrOctets cls false num cnt.length).length + cnt.length ≤ l) ∧
+      C14.primRun p cnt tail = .ok (v, St tail (some 0)) := by
+  have h' : runG0 (takeValueIf c (C12.tagOf cls num) (asPrimitive (fun md => do let a ← p; pure (a, md))))
+      (St d lim) = .ok ((v, c'), g') := h
+  obtain ⟨cnt, tail, h1, h2, h3, h4, h5, h6⟩ :=
+    der_value_framing c hm cls num ht _ (primOnly_asPrimitive p hp) d lim v c' g' h'
+  rw [contentRun_asPrimitive] at h6
+  exact ⟨cnt, tail, h1, h2, h3, h4, h5, h6⟩
+
+/-! ## 3. typed leaves in DER: what is accepted is what the encoder writes for the decoded value -/
+
+/-- `p` accepts a content only if it is exactly what the encoder `pcOf v` writes for the value `v` it
+    returns (and that encoder announces the length it writes) -/
+def LeafCanon {α : Type} (p : Prog α) (pcOf : α → PC) : Prop :=
+  ∀ (cnt tail : Bytes) (v : α) (g : G0), C14.primRun p cnt tail = .ok (v, g) →
+    cnt = (pcOf v).write ∧ C06.PC.intOK (pcOf v) = true
+
+/-- the same for closures that take the `Content` (`BitString::from_content`, `OctetString::from_content`) -/
+def LeafCanonC {α : Type} (op : Content → Prog (α × Content)) (pcOf : α → PC) : Prop :=
+  ∀ (cnt tail : Bytes) (v : α) (g : G0), contentRun op .der cnt tail = .ok (v, g) →
+    cnt = (pcOf v).write ∧ C06.PC.intOK (pcOf v) = true
+
+theorem leafCanonC_of_leafCanon {α : Type} (p : Prog α) (pcOf : α → PC) (h : LeafCanon p pcOf) :
+    LeafCanonC (asPrimitive (fun md => do let a ← p; pure (a, md))) pcOf := by
+  intro cnt tail v g hr
+  rw [contentRun_asPrimitive] at hr
+  exact h cnt tail v g hr
+
+/-- fixed-width INTEGER, all ten builtin types (restating `C14.decode_ok_enc`) -/
+theorem leaf_int_canonical (ty : IntTy) : LeafCanon (toInt ty) (fun v => .int ty v) := by
+  intro cnt tail v g h
+  refine ⟨C14.decode_ok_enc ty cnt tail v g h, ?_⟩
+  obtain ⟨_, hr, hv, _⟩ := (C14.decode_ok_iff ty cnt tail v g).mp h
+  rw [← hv] at hr
+  simp only [C06.PC.intOK, beq_iff_eq]
+  exact C14.encIntLen_eq ty v hr
+
+/-- BOOLEAN in DER: only `00` and `FF` are accepted -/
+theorem leaf_bool_canonical : LeafCanon (toBool .der) (fun b => .bool b) := by
+  intro cnt tail b g h
+  refine ⟨?_, rfl⟩
+  rw [C14.bool_eq_spec] at h
+  have hb : Mode.der.isBer = false := rfl
+  rw [hb] at h
+  match cnt, h with
+  | [], h => simp [decodeBool] at h
+  | [x], h =>
+    simp only [decodeBool, Bool.false_eq_true, if_false] at h
+    by_cases h0 : (x == 0) = true
+    · simp only [h0, if_true, Except.ok.injEq, Prod.mk.injEq] at h
+      have : x = 0 := by simpa using h0
+      rw [← h.1, this]; rfl
+    · simp only [h0, Bool.false_eq_true, if_false] at h
+      by_cases hf : (x == 0xFF) = true
+      · simp only [hf, if_true, Except.ok.injEq, Prod.mk.injEq] at h
+        have : x = 0xFF := by simpa using hf
+        rw [← h.1, this]; rfl
+      · simp [hf] at h
+  | x :: y :: t, h => simp [decodeBool] at h
+
+/-- NULL: only the empty content -/
+theorem leaf_null_canonical : LeafCanon toNull (fun _ => .null) := by
+  intro cnt tail v g h
+  refine ⟨?_, rfl⟩
+  rw [C14.null_eq_spec] at h
+  by_cases hc : cnt = []
+  · rw [hc]; rfl
+  · rw [if_neg hc] at h; cases h
+
+theorem primRun_of_run {α : Type} (p : Prog α) (cnt tail : Bytes) (r : Res (α × G0))
+    (hr : runG0 p (St (cnt ++ tail) (some cnt.length)) = r)
+    (hg : ∀ a g, r = .ok (a, g) → g = St tail (some 0)) : C14.primRun p cnt tail = r := by
+  rw [primRun_unfold, hr]
+  cases r with
+  | error e => rfl
+  | ok x =>
+    obtain ⟨a, g⟩ := x
+    rw [hg a g rfl]
+    simp [run_limitedExhausted]
+
+/-- arbitrary-size INTEGER (`Integer::from_primitive`): the content is returned unchanged and is what
+    the encoder of the value writes -/
+theorem leaf_integer_canonical : LeafCanon integerFromPrimitive (fun c => .integer c) := by
+  intro cnt tail v g h
+  refine ⟨?_, rfl⟩
+  rw [primRun_of_run _ cnt tail _ (C15.integerFromPrimitive_spec cnt tail)
+    (by intro a g' e; split at e <;> simp at e; exact e.2.symm)] at h
+  split at h
+  · simp only [Except.ok.injEq, Prod.mk.injEq] at h; rw [← h.1]; rfl
+  · cases h
+
+/-- OBJECT IDENTIFIER -/
+theorem leaf_oid_canonical : LeafCanon Oid.fromPrimitive (fun c => .oid c) := by
+  intro cnt tail v g h
+  refine ⟨?_, rfl⟩
+  rw [primRun_of_run _ cnt tail _ (C20.fromPrimitive_run cnt tail)
+    (by intro a g' e; split at e <;> simp at e; exact e.2.symm)] at h
+  split at h
+  · simp only [Except.ok.injEq, Prod.mk.injEq] at h; rw [← h.1]; rfl
+  · cases h
+
+/-- BIT STRING (`BitString::from_content`) is a primitive-only window closure … -/
+theorem primOnly_bits : PrimOnly BitString.fromContent := by
+  refine ⟨fun st g r h => (by cases h), ?_, ?_⟩
+  · simp only [BitString.fromContent]
+    have := w_remaining; have := w_takeU8; have := w_takeAll
+    uses
+  · intro g a k g' h
+    have hr : Rets (fun r : BitString × Content => ∃ m, r.2 = .prim m) (BitString.fromContent (.prim .der)) := by
+      simp only [BitString.fromContent]
+      repeat' (first
+        | exact Rets.contentErr'
+        | exact Rets.pure' _ ⟨_, rfl⟩
+        | apply Rets.bind
+        | intro _
+        | split)
+    exact hr.run g (a, k) g' h
+
+/-- … and accepts exactly what the encoder of the decoded value writes -/
+theorem leaf_bits_canonical : LeafCanonC BitString.fromContent (fun s => .bits s.unused s.bits) := by
+  intro cnt tail s g h
+  refine ⟨?_, rfl⟩
+  unfold contentRun at h
+  rw [C19.fromContent_run] at h
+  cases cnt with
+  | nil => simp [C19.decoded] at h
+  | cons u data =>
+    simp only [C19.decoded] at h
+    by_cases ha : C19.accepts .der (u :: data) = true
+    · simp only [ha, if_true, Content.exhausted, run_limitedExhausted, Except.ok.injEq, Prod.mk.injEq] at h
+      rw [← h.1]; rfl
+    · simp only [ha, Bool.false_eq_true, if_false] at h
+      cases h
+
+/-- the encoder of a decoded OCTET STRING -/
+def osPC : OS → PC
+  | .prim b => .octets b
+  | .cons b => .octets b
+
+theorem primOnly_octets (fuel : Nat) : PrimOnly (OS.fromContent fuel) := by
+  refine ⟨fun st g r h => (by cases h), ?_, ?_⟩
+  · simp only [OS.fromContent]
+    have := w_remaining; have := w_takeAll
+    uses
+  · intro g a k g' h
+    have hr : Rets (fun r : OS × Content => ∃ m, r.2 = .prim m) (OS.fromContent fuel (.prim .der)) := by
+      simp only [OS.fromContent]
+      repeat' (first
+        | exact Rets.contentErr'
+        | exact Rets.pure' _ ⟨_, rfl⟩
+        | apply Rets.bind
+        | intro _
+        | split)
+    exact hr.run g (a, k) g' h
+
+/-- OCTET STRING in DER: the primitive form only, content returned unchanged -/
+theorem leaf_octets_canonical (fuel : Nat) : LeafCanonC (OS.fromContent fuel) osPC := by
+  intro cnt tail os g h
+  refine ⟨?_, by cases os <;> rfl⟩
+  unfold contentRun at h
+  have hrun : runG0 (OS.fromContent fuel (.prim .der)) (St (cnt ++ tail) (some cnt.length)) =
+      .ok ((.prim cnt, .prim .der), St tail (some 0)) := by
+    have hne : (Mode.der == Mode.cer) = false := rfl
+    simp only [OS.fromContent, hne, Bool.false_and, Bool.false_eq_true, if_false, runG0_bind, C19.run_remaining,
+      C15.run_takeAll_content, runG0_pure]
+  rw [hrun] at h
+  simp only [Content.exhausted, run_limitedExhausted, if_true, Except.ok.injEq, Prod.mk.injEq] at h
+  rw [← h.1]; rfl
+
+/-! ## 4 + 3: decode, then encode — the consumed octets are the encoder's output -/
+
+/-- **decode-then-encode canonicity** of a decoder `dec` against an encoder `enc`: whenever `dec`
+    succeeds in DER mode (on any source state without open capture, in any context) with value `v`,
+    the octets it consumed are exactly `(enc v).write .der`, the `Constructed` is unchanged and the
+    limit is reduced by exactly that many octets. -/
+def Canon {β : Type} (dec : Cons → Prog (β × Cons)) (enc : β → Enc) : Prop :=
+  ∀ (c : Cons) (d : Bytes) (lim : Option Nat) (v : β) (c' : Cons) (g' : G0), c.mode = .der →
+    runG0 (dec c) (St d lim) = .ok ((v, c'), g') →
+    ∃ bytes tail, (enc v).write .der = .ok bytes ∧ C06.IntsOK (enc v) = true ∧ d = bytes ++ tail ∧ c' = c ∧
+      g' = St tail (lim.map (· - bytes.length)) ∧ (∀ l, lim = some l → bytes.length ≤ l)
+
+theorem write_prim_eq (m : Mode) (cls num : Nat) (ht : TagOK cls num) (pc : PC) (hi : C06.PC.intOK pc = true)
+    (hlen : pc.write.length < 2 ^ 32) :
+    (Enc.prim (C12.tagOf cls num) pc).write m = .ok (hdrOctets cls false num pc.write.length ++ pc.write) := by
+  rw [C06.write_prim m _ pc hi, C06.tlvR, if_pos hlen, tagOf_write cls num ht.hc ht.hn]
+  rfl
+
+theorem write_cons_eq (cls num : Nat) (ht : TagOK cls num) (inner : Enc) (hi : C06.IntsOK inner = true)
+    (ib : Bytes) (hw : inner.write .der = .ok ib) (hlen : ib.length < 2 ^ 32) :
+    (Enc.cons (C12.tagOf cls num) inner).write .der = .ok (hdrOctets cls true num ib.length ++ ib) := by
+  rw [C06.write_cons_der _ inner hi, hw]
+  simp only [Bind.bind, Except.bind, C06.tlvR]
+  rw [if_pos hlen, tagOf_write cls num ht.hc ht.hn]
+  rfl
+
+theorem St_map_zero (d : Bytes) (lim : Option Nat) : St d lim = St d (lim.map (· - 0)) := by
+  cases lim <;> rfl
+
+/-- a primitive value read through `take_opt_value_if` that is present -/
+theorem canon_value_some {α : Type} (cls num : Nat) (ht : TagOK cls num) (op : Content → Prog (α × Content))
+    (hop : PrimOnly op) (pcOf : α → PC) (hl : LeafCanonC op pcOf)
+    (c : Cons) (hm : c.mode = .der) (d : Bytes) (lim : Option Nat) (v : α) (c' : Cons) (g' : G0)
+    (h : runG0 (takeOptValueIf c (C12.tagOf cls num) op) (St d lim) = .ok ((some v, c'), g')) :
+    ∃ bytes tail, (Enc.prim (C12.tagOf cls num) (pcOf v)).write .der = .ok bytes ∧
+      C06.IntsOK (Enc.prim (C12.tagOf cls num) (pcOf v)) = true ∧ d = bytes ++ tail ∧ c' = c ∧
+      g' = St tail (lim.map (· - bytes.length)) ∧ (∀ l, lim = some l → bytes.length ≤ l) := by
+  obtain ⟨cnt, tail, h1, h2, h3, h4, h5, h6⟩ := der_value_framing_opt c hm cls num ht op hop d lim v c' g' h
+  obtain ⟨hc, hi⟩ := hl cnt tail v _ h6
+  subst hc
+  refine ⟨hdrOctets cls false num (pcOf v).write.length ++ (pcOf v).write, tail,
+    write_prim_eq .der cls num ht _ hi h2, by simp only [C06.IntsOK]; exact hi, h1, h3, ?_, ?_⟩
+  · rw [h4, List.length_append]
+  · intro l hl'; rw [List.length_append]; exact h5 l hl'
+
+/-- an absent optional value consumes nothing -/
+theorem canon_absent {α : Type} (cls num : Nat) (ht : TagOK cls num) (op : Tag → Content → Prog (α × Content))
+    (c : Cons) (d : Bytes) (lim : Option Nat) (c' : Cons) (g' : G0)
+    (h : runG0 (processNextValue c (some (C12.tagOf cls num)) op) (St d lim) = .ok ((none, c'), g')) :
+    ∃ bytes tail, Enc.optNone.write .der = .ok bytes ∧ C06.IntsOK Enc.optNone = true ∧ d = bytes ++ tail ∧ c' = c ∧
+      g' = St tail (lim.map (· - bytes.length)) ∧ (∀ l, lim = some l → bytes.length ≤ l) := by
+  obtain ⟨hg, hc⟩ := absent_untouched_if_ne c c' cls num ht.hc ht.hn ht.hne op _ g' rfl h
+  exact ⟨[], d, rfl, rfl, rfl, hc, by rw [hg]; exact St_map_zero d lim, fun l _ => Nat.zero_le _⟩
+
+/-- the encoder of an optional field -/
+def optEnc {α : Type} (e : α → Enc) : Option α → Enc
+  | none => .optNone
+  | some v => .optSome (e v)
+
+theorem mandatory_some {α : Type} (p : Prog (Option α × Cons)) (g : G0) (v : α) (c' : Cons) (g' : G0)
+    (h : runG0 (mandatory p) g = .ok ((v, c'), g')) : runG0 p g = .ok ((some v, c'), g') := by
+  rw [mandatory_run] at h
+  cases hr : runG0 p g with
+  | error e => rw [hr] at h; cases h
+  | ok r =>
+    obtain ⟨⟨a?, c1⟩, g1⟩ := r
+    rw [hr] at h
+    cases a? with
+    | none => cases h
+    | some a =>
+      simp only [Except.ok.injEq, Prod.mk.injEq] at h
+      obtain ⟨⟨ha, hc1⟩, hg1⟩ := h
+      rw [ha, hc1, hg1]
+
+/-- `take_value_if(tag, op)` against `Primitive`-style encoders -/
+theorem canon_value {α : Type} (cls num : Nat) (ht : TagOK cls num) (op : Content → Prog (α × Content))
+    (hop : PrimOnly op) (pcOf : α → PC) (hl : LeafCanonC op pcOf) :
+    Canon (fun c => takeValueIf c (C12.tagOf cls num) op) (fun v => .prim (C12.tagOf cls num) (pcOf v)) := by
+  intro c d lim v c' g' hm h
+  exact canon_value_some cls num ht op hop pcOf hl c hm d lim v c' g' (mandatory_some _ _ _ _ _ h)
+
+/-- `take_opt_value_if(tag, op)` against `Option<Primitive…>` -/
+theorem canon_optValue {α : Type} (cls num : Nat) (ht : TagOK cls num) (op : Content → Prog (α × Content))
+    (hop : PrimOnly op) (pcOf : α → PC) (hl : LeafCanonC op pcOf) :
+    Canon (fun c => takeOptValueIf c (C12.tagOf cls num) op)
+      (optEnc fun v => .prim (C12.tagOf cls num) (pcOf v)) := by
+  intro c d lim v c' g' hm h
+  cases v with
+  | none => exact canon_absent cls num ht _ c d lim c' g' h
+  | some v => exact canon_value_some cls num ht op hop pcOf hl c hm d lim v c' g' h
+
+/-- `take_primitive_if(tag, |prim| p)` -/
+theorem canon_prim {α : Type} (cls num : Nat) (ht : TagOK cls num) (p : Prog α) (hp : W p)
+    (pcOf : α → PC) (hl : LeafCanon p pcOf) :
+    Canon (fun c => takePrimitiveIf c (C12.tagOf cls num) (fun md => do let a ← p; pure (a, md)))
+      (fun v => .prim (C12.tagOf cls num) (pcOf v)) :=
+  canon_value cls num ht _ (primOnly_asPrimitive p hp) pcOf (leafCanonC_of_leafCanon p pcOf hl)
+
+/-- `take_opt_primitive_if(tag, |prim| p)` -/
+theorem canon_optPrim {α : Type} (cls num : Nat) (ht : TagOK cls num) (p : Prog α) (hp : W p)
+    (pcOf : α → PC) (hl : LeafCanon p pcOf) :
+    Canon (fun c => takeOptPrimitiveIf c (C12.tagOf cls num) (fun md => do let a ← p; pure (a, md)))
+      (optEnc fun v => .prim (C12.tagOf cls num) (pcOf v)) :=
+  canon_optValue cls num ht _ (primOnly_asPrimitive p hp) pcOf (leafCanonC_of_leafCanon p pcOf hl)
+
+/-- **`der_prim_canonical`** (3 and 4 combined, spelled out): if `take_primitive_if(tag, p)` succeeds in
+    DER mode with `v`, the octets it consumed are `Enc.write .der (.prim tag (pcOf v))`. -/
+theorem der_prim_canonical {α : Type} (c : Cons) (hm : c.mode = .der) (cls num : Nat) (ht : TagOK cls num)
+    (p : Prog α) (hp : W p) (pcOf : α → PC) (hl : LeafCanon p pcOf)
+    (d : Bytes) (lim : Option Nat) (v : α) (c' : Cons) (g' : G0)
+    (h : runG0 (takePrimitiveIf c (C12.tagOf cls num) (fun md => do let a ← p; pure (a, md))) (St d lim) =
+      .ok ((v, c'), g')) :
+    ∃ bytes tail, (Enc.prim (C12.tagOf cls num) (pcOf v)).write .der = .ok bytes ∧ d = bytes ++ tail ∧
+      c' = c ∧ g' = St tail (lim.map (· - bytes.length)) := by
+  obtain ⟨bytes, tail, h1, _, h3, h4, h5, _⟩ := canon_prim cls num ht p hp pcOf hl c d lim v c' g' hm h
+  exact ⟨bytes, tail, h1, h3, h4, h5⟩
+
+/-- a constructed value read through `take_opt_constructed_if` that is present -/
+theorem canon_cons_some {β : Type} (cls num : Nat) (ht : TagOK cls num) (dec : Cons → Prog (β × Cons))
+    (enc : β → Enc) (hin : Canon dec enc)
+    (c : Cons) (hm : c.mode = .der) (d : Bytes) (lim : Option Nat) (v : β) (c' : Cons) (g' : G0)
+    (h : runG0 (takeOptConstructedIf c (C12.tagOf cls num) dec) (St d lim) = .ok ((some v, c'), g')) :
+    ∃ bytes tail, (Enc.cons (C12.tagOf cls num) (enc v)).write .der = .ok bytes ∧
+      C06.IntsOK (Enc.cons (C12.tagOf cls num) (enc v)) = true ∧ d = bytes ++ tail ∧ c' = c ∧
+      g' = St tail (lim.map (· - bytes.length)) ∧ (∀ l, lim = some l → bytes.length ≤ l) := by
+  unfold takeOptConstructedIf at h
+  obtain ⟨b, len, body, k', g3, g4, hd, hc', hlen, hcov, hrun, hex, hg'⟩ :=
+    frame_inv c hm cls num ht (fun _ => asConstructed dec) d lim v c' g' h
+  cases b with
+  | false => simp only [Bool.false_eq_true, if_false, asConstructed] at hrun; cases hrun
+  | true =>
+    simp only [if_true, asConstructed, runG0_bind] at hrun
+    cases hr : runG0 (dec ⟨.definite, .der⟩) (St body (some len)) with
+    | error e => rw [hr] at hrun; cases hrun
+    | ok r =>
+      obtain ⟨⟨a, c2⟩, g2⟩ := r
+      rw [hr] at hrun
+      simp only [runG0_pure, Except.ok.injEq, Prod.mk.injEq] at hrun
+      obtain ⟨⟨ha, hk'⟩, hg3⟩ := hrun
+      subst ha; subst hk'; subst hg3
+      obtain ⟨ib, tail, hw, hi, hbody, hc2, hg2, hfit⟩ := hin ⟨.definite, .der⟩ body (some len) a c2 g2 rfl hr
+      subst hc2; subst hg2
+      have hle := hfit len rfl
+      simp only [Content.exhausted, Cons.exhausted, Option.map, run_limitedExhausted] at hex
+      split at hex
+      · rename_i h0
+        have hil : ib.length = len := by omega
+        simp only [Except.ok.injEq, Prod.mk.injEq, true_and] at hex
+        subst hil
+        refine ⟨hdrOctets cls true num ib.length ++ ib, tail, write_cons_eq cls num ht _ hi ib hw hlen,
+          by simp only [C06.IntsOK]; exact hi, ?_, hc', ?_, ?_⟩
+        · rw [List.append_assoc, ← hbody]; exact hd
+        · rw [hg', ← hex, List.length_append]
+        · intro l hl'; rw [List.length_append]; exact hcov l hl'
+      · cases hex
+
+/-- `take_constructed_if(tag, dec)` against `Constructed::new(tag, enc)` (sequence, set, explicit tag) -/
+theorem canon_cons {β : Type} (cls num : Nat) (ht : TagOK cls num) (dec : Cons → Prog (β × Cons))
+    (enc : β → Enc) (hin : Canon dec enc) :
+    Canon (fun c => takeConstructedIf c (C12.tagOf cls num) dec) (fun v => .cons (C12.tagOf cls num) (enc v)) := by
+  intro c d lim v c' g' hm h
+  exact canon_cons_some cls num ht dec enc hin c hm d lim v c' g' (mandatory_some _ _ _ _ _ h)
+
+/-- `take_opt_constructed_if(tag, dec)` against `Option<Constructed…>` -/
+theorem canon_optCons {β : Type} (cls num : Nat) (ht : TagOK cls num) (dec : Cons → Prog (β × Cons))
+    (enc : β → Enc) (hin : Canon dec enc) :
+    Canon (fun c => takeOptConstructedIf c (C12.tagOf cls num) dec)
+      (optEnc fun v => .cons (C12.tagOf cls num) (enc v)) := by
+  intro c d lim v c' g' hm h
+  cases v with
+  | none => exact canon_absent cls num ht _ c d lim c' g' h
+  | some v => exact canon_cons_some cls num ht dec enc hin c hm d lim v c' g' h
+
+/-- nothing to read, nothing written -/
+theorem canon_nil (k : SeqKind) : Canon (fun c => (pure ((), c) : Prog (Unit × Cons))) (fun _ => .seq k []) := by
+  intro c d lim v c' g' hm h
+  simp only [runG0_pure, Except.ok.injEq, Prod.mk.injEq] at h
+  obtain ⟨⟨_, hc⟩, hg⟩ := h
+  exact ⟨[], d, rfl, rfl, rfl, hc.symm, by rw [← hg]; exact St_map_zero d lim, fun l _ => Nat.zero_le _⟩
+
+/-- fields read one after the other against items written one after the other -/
+theorem canon_seq {β γ : Type} (k : SeqKind) (d1 : Cons → Prog (β × Cons)) (d2 : Cons → Prog (γ × Cons))
+    (e1 : β → Enc) (es : γ → List Enc) (h1 : Canon d1 e1) (h2 : Canon d2 (fun b => .seq k (es b))) :
+    Canon (fun c => do let (a, c1) ← d1 c; let (b, c2) ← d2 c1; pure ((a, b), c2))
+      (fun p => .seq k (e1 p.1 :: es p.2)) := by
+  intro c d lim v c' g' hm h
+  simp only [runG0_bind] at h
+  cases hr1 : runG0 (d1 c) (St d lim) with
+  | error e => rw [hr1] at h; cases h
+  | ok r1 =>
+    obtain ⟨⟨a, c1⟩, g1⟩ := r1
+    rw [hr1] at h
+    simp only at h
+    obtain ⟨b1, t1, hw1, hi1, hd1, hc1, hg1, hf1⟩ := h1 c d lim a c1 g1 hm hr1
+    subst hc1; subst hg1
+    cases hr2 : runG0 (d2 c1) (St t1 (lim.map (· - b1.length))) with
+    | error e => rw [hr2] at h; cases h
+    | ok r2 =>
+      obtain ⟨⟨b, c2⟩, g2⟩ := r2
+      rw [hr2] at h
+      simp only [runG0_pure, Except.ok.injEq, Prod.mk.injEq] at h
+      obtain ⟨⟨hv, hc'⟩, hg'⟩ := h
+      subst hv; subst hc'; subst hg'
+      obtain ⟨b2, tail, hw2, hi2, hd2, hc2, hg2, hf2⟩ := h2 c1 t1 _ b c2 g2 hm hr2
+      simp only [Enc.write] at hw2
+      simp only [C06.IntsOK] at hi2
+      refine ⟨b1 ++ b2, tail, ?_, ?_, ?_, hc2, ?_, ?_⟩
+      · simp only [Enc.write, Enc.writeList, hw1, hw2]; rfl
+      · simp only [C06.IntsOK, C06.IntsOKList, hi1, hi2, Bool.and_self]
+      · rw [hd1, hd2, List.append_assoc]
+      · rw [hg2, List.length_append]
+        cases lim <;> simp [Nat.sub_sub]
+      · intro l hl'
+        subst hl'
+        have a1 := hf1 l rfl
+        have a2 := hf2 (l - b1.length) rfl
+        rw [List.length_append]; omega
+
+/-- post-processing of the decoded value, when the encoder of the result writes the same -/
+theorem canon_map {β γ : Type} (dec : Cons → Prog (β × Cons)) (enc : β → Enc) (f : β → γ) (enc' : γ → Enc)
+    (hf : ∀ a, enc' (f a) = enc a) (h : Canon dec enc) :
+    Canon (fun c => do let (a, c1) ← dec c; pure (f a, c1)) enc' := by
+  intro c d lim v c' g' hm hr
+  simp only [runG0_bind] at hr
+  cases hr1 : runG0 (dec c) (St d lim) with
+  | error e => rw [hr1] at hr; cases hr
+  | ok r1 =>
+    obtain ⟨⟨a, c1⟩, g1⟩ := r1
+    rw [hr1] at hr
+    simp only [runG0_pure, Except.ok.injEq, Prod.mk.injEq] at hr
+    obtain ⟨⟨hv, hc'⟩, hg'⟩ := hr
+    subst hv; subst hc'; subst hg'
+    rw [hf]
+    exact h c d lim a c1 g1 hm hr1
+
+/-- `Choice2` / `Choice3`: the alternative that was decoded -/
+theorem canon_choice {β : Type} (n i : Nat) (dec : Cons → Prog (β × Cons)) (enc : β → Enc) (h : Canon dec enc) :
+    Canon dec (fun v => .choice n i (enc v)) := by
+  intro c d lim v c' g' hm hr
+  obtain ⟨bytes, tail, h1, h2, h3⟩ := h c d lim v c' g' hm hr
+  exact ⟨bytes, tail, by simpa only [Enc.write] using h1, by simpa only [C06.IntsOK] using h2, h3⟩
 
 end Bcder.Props.C05
